@@ -34,20 +34,61 @@ def static_variant(t):
     return t
 
 
+NUM_SETUP = ["create table nt(i int, b bigint, s smallint, f double, d decimal(10,2), e decimal(6,3))",
+             "insert into nt values (1, 10, 2, 1.5, 2.25, 0.125), (-3, 40000000000, -7, -0.25, 100.00, 7.5), (NULL, NULL, NULL, NULL, NULL, NULL), (0, 1, 1, 3.0, 0.01, 1.000)"]
+NUM_COLS = ["i", "b", "s", "f", "d", "e"]
+
+
+class _Q:
+    def __init__(self, sql, ncols):
+        self.sql, self.ncols = sql, ncols
+
+
+def num_expr(rng, depth=0):
+    x = rng.random()
+    if depth >= 2 or x < 0.35:
+        return rng.choice(NUM_COLS + ["2", "1.5", "0.5e0", "3000000000", "CAST(2 AS SMALLINT)"]) if rng.random() < 0.85 else "NULL"
+    if x < 0.8:
+        return f"({num_expr(rng, depth + 1)} {rng.choice(['+', '-', '*', '/', '%'])} {num_expr(rng, depth + 1)})"
+    if x < 0.88:
+        return f"(- {num_expr(rng, depth + 1)})"
+    if x < 0.95:
+        return f"(CASE WHEN {num_expr(rng, depth + 1)} {rng.choice(['<', '=', '>='])} {num_expr(rng, depth + 1)} THEN {num_expr(rng, depth + 1)} ELSE {num_expr(rng, depth + 1)} END)"
+    return f"CAST({num_expr(rng, depth + 1)} AS {rng.choice(['INT', 'BIGINT', 'DOUBLE', 'DECIMAL(10,2)', 'SMALLINT'])})"
+
+
+def num_query(rng):
+    n = rng.randint(1, 3)
+    items = [num_expr(rng) for _ in range(n)]
+    shape = rng.random()
+    if shape < 0.6:
+        return _Q("SELECT " + ", ".join(f"{e} AS c{i}" for i, e in enumerate(items)) + " FROM nt", n)
+    if shape < 0.8:
+        agg = [f"{rng.choice(['SUM', 'MIN', 'MAX'])}({e}) AS c{i}" for i, e in enumerate(items)]
+        return _Q("SELECT " + ", ".join(agg) + " FROM nt", n)
+    return _Q(f"SELECT {items[0]} AS c0, COUNT(*) AS c1 FROM nt GROUP BY {items[0]}", 2)
+
+
 def leg_a(args):
     seed, idx, nq = args
     rng = random.Random(f"c16a-{seed}-{idx}")
     tables = gen_schema(rng, types=TYPES, pk_types=("INT",), max_cols=4, pk_p=0.4)
     stmts = setup_statements(rng, tables, max_rows=rng.choice([3, 12, 40]), max_stmts=3, wide_pk=True)
     engine = "disk" if rng.random() < 0.4 else "mem"
-    res = dict(leg="A", violations=[], evals=0, judged=0, distinct=[], inconclusive=None, sample=None)
+    res = dict(leg="A", violations=[], evals=0, judged=0, judged_num=0, distinct=[], inconclusive=None, sample=None)
     rl = RL(engine, rng.choice(DISK_LAYOUTS[:4]))
     try:
         for s in stmts:
             rl.sql(s)
         g = QueryGen(rng, tables, FEATURES)
-        for _ in range(nq):
-            q = g.query()
+        for s in NUM_SETUP:
+            rl.sql(s)
+        stmts = stmts + NUM_SETUP
+        for qi in range(nq):
+            # every fourth statement: expressions over columns of *every* numeric type (the generator's arithmetic is
+            # integer-typed), so that each operand-type pair of + - * / % and the comparison / CASE / cast / aggregate
+            # typing rules meet the kernels' result variants
+            q = num_query(rng) if qi % 4 == 3 else g.query()
             try:
                 r = rl.cmd({"op": "plancheck", "sql": q.sql}, timeout=60)
             except Exception as e:
@@ -61,6 +102,7 @@ def leg_a(args):
                 continue
             want = [static_variant(t) for t in st]
             res["judged"] += 1
+            res["judged_num"] += isinstance(q, _Q)
             if r["runtime_types"]:
                 res["distinct"].append(h(q.sql))
             for w in r.get("chunk_widths", []):
@@ -318,13 +360,14 @@ def run(tier, seed):
                 "variants and chunk widths; leg B: INSERT VALUES / column subsets / INSERT..SELECT of int, float, string, boolean, "
                 "date and NULL sources into columns of 8 types (nullable or NOT NULL) on both engines, read back and compared; "
                 "distinct non-trivial = distinct executed queries with result chunks (A) plus distinct accepted inserts (B)")
-    tot = dict(judged_a=0, judged_b=0, accepted=0, rejected=0)
+    tot = dict(judged_a=0, judged_num=0, judged_b=0, accepted=0, rejected=0)
     items = [("A", (seed, i, nq)) for i in range(na)] + [("B", (seed, i, nins)) for i in range(nb)]
     for res in parallel_map(dispatch, items):
         rep.evaluations += res["evals"]
         rep.distinct.update(res["distinct"])
         if res["leg"] == "A":
             tot["judged_a"] += res["judged"]
+            tot["judged_num"] += res["judged_num"]
         else:
             tot["judged_b"] += res["judged"]
             tot["accepted"] += res["accepted"]
@@ -337,7 +380,8 @@ def run(tier, seed):
             w = {k: v[k] for k in ("sql", "setup", "engine", "ddl") if k in v}
             rep.add_violation(Violation(v["signature"], v["what"], w))
     run_sentinels(rep, sentinel)
-    rep.coverage.update(queries_with_types_judged=tot["judged_a"], inserts_read_back=tot["judged_b"],
+    rep.floor("numeric typed statements judged", tot["judged_num"], na * nq // 16)
+    rep.coverage.update(numeric_typed_statements_judged=tot["judged_num"], queries_with_types_judged=tot["judged_a"], inserts_read_back=tot["judged_b"],
                         inserts_accepted=tot["accepted"], inserts_rejected=tot["rejected"])
     rep.floor("queries judged", tot["judged_a"], na * nq // 3)
     rep.floor("inserts read back", tot["judged_b"], nb * nins // 6)
